@@ -337,6 +337,8 @@ class Ctx:
 
     def oblige(self, oid, goal, kind="ensures", lineno=None, note="", extra_terms=()):
         """Register a proof obligation under the current path condition."""
+        if getattr(self, "solving", False):
+            return      # instantiation-time re-evaluation of closures: their obligations were collected at execution time
         oid = self.stable_id(oid)
         if isinstance(goal, (list, tuple)):
             for n, g in enumerate(goal):
@@ -362,6 +364,15 @@ class Ctx:
                 self.assume(goal)
         else:
             self.assume(goal)
+
+    def induct(self, oid, P, trigger, lo=0, hi=None):
+        """Lemma by induction, stated in a contract: obligations  P(lo)  and  P(k) -> P(k+1)  (lo <= k, k+1 <= hi),
+        then the conclusion  forall k in [lo, hi]. P(k)  becomes an instantiable hypothesis on `trigger`."""
+        self.oblige(oid + ".base", P(I(lo)), "lemma")
+        rng = (lambda k: And(I(k) >= I(lo), I(k) + 1 <= I(hi))) if hi is not None else (lambda k: I(k) >= I(lo))
+        self.oblige(oid + ".step", Forall(lambda k: Implies(And(rng(k), P(k)), P(k + 1))), "lemma")
+        rng2 = (lambda k: And(I(k) >= I(lo), I(k) <= I(hi))) if hi is not None else (lambda k: I(k) >= I(lo))
+        self.assume(Forall(lambda k: Implies(rng2(k), P(k)), triggers=[trigger], name=oid))
 
     def stable_id(self, oid):
         """absolute line numbers in obligation ids -> function-relative (stable under edits elsewhere)"""
